@@ -31,7 +31,7 @@ COMPONENTS = {
     "real": ["SciPySampler (all methods)", "scipy.stats / scipy.stats.qmc engines", "EnsembleEvaluator._init_samplers / _perturb_variables"],
     "stub": ["tap wrapper around the sampler", "SimEvaluator", "sim/scripted optimizer"],
 }
-PROBES = ["short_assignment", "explicit_options_sampler", "calls_checked", "qmc_calls", "lhs_stratification_checked", "shared_checked", "unshared_checked",
+PROBES = ["derived_default_sampler_checked", "short_assignment", "explicit_options_sampler", "calls_checked", "qmc_calls", "lhs_stratification_checked", "shared_checked", "unshared_checked",
           "masked_columns_checked", "repeated_call", "sampler_without_variables", "bounded_checked"]
 METHODS = ["uniform", "norm", "truncnorm", "sobol", "halton", "lhs"]
 BOUNDED = {"uniform", "truncnorm", "sobol", "halton", "lhs"}
@@ -79,6 +79,8 @@ def generate(seed: int, index: int, tier: str) -> dict:
     elif rng.random() < 0.15:
         cfg["gradient"]["samplers"] = [0]
     cfg["gradient"]["boundary_types"] = 1
+    if rng.random() < 0.3:
+        scn["validated_config_object"] = True
     scn["stratum"] = cfg["samplers"][0]["method"]
     return scn
 
@@ -178,6 +180,37 @@ def execute(scn: dict) -> dict:
                                      "detail": f"{where}: strata of variable {col}: {strata[:, col].tolist()}"})
                         break
 
+    # a second configuration derived from the validated one the run used: the settings of a default-configured
+    # sampler copied with only the method exchanged (uniform <-> truncnorm) give a default-configured sampler of the
+    # other method, which keeps to [-1, 1] - nothing the first run did to its own sampler shows up in it
+    if scn.get("validated_config_object") and (ex is None or ex[0] != "exception"):
+        from ropt.config.enopt import EnOptConfig
+        from ropt.ensemble_evaluator import EnsembleEvaluator
+
+        config1 = next((r.config for r in ctx.events if isinstance(r.config, EnOptConfig)), None)
+        swap = {"uniform": "truncnorm", "truncnorm": "uniform"}
+        ks = [k for k, sm in enumerate(cfg["samplers"]) if not sm.get("options") and sm["method"].split("/")[1] in swap]
+        if config1 is not None and ks:
+            new = list(config1.samplers)
+            for k in ks:
+                new[k] = new[k].model_copy(update={"method": "tap/" + swap[cfg["samplers"][k]["method"].split("/")[1]]})
+            config2 = config1.model_copy(update={"samplers": tuple(new)})
+            mark = len(backend.TAP_LOG)
+            try:
+                ee = EnsembleEvaluator(config2, None, ctx.evaluator, ctx.context.plugin_manager)
+                ee.calculate(np.asarray(config2.variables.initial_values, dtype=np.float64), compute_functions=True, compute_gradients=True)
+            except Exception as exc:  # noqa: BLE001
+                viol.append({"clause": "sampler-setup-exception", "sig": {"derived": True},
+                             "detail": f"configuration derived from the validated one (sampler methods exchanged): {type(exc).__name__}: {exc}"})
+            for rec in backend.TAP_LOG[mark:]:
+                if rec["index"] in ks:
+                    probe("derived_default_sampler_checked")
+                    given = np.ones(nv, bool) if rec["mask"] is None else np.asarray(rec["mask"], bool)
+                    h = rec["samples"][..., given]
+                    if h.size and np.any(np.abs(h) > 1.0 + 1e-12):
+                        viol.append({"clause": "out-of-range", "sig": {"method": rec["method"], "derived": True},
+                                     "detail": f"sampler {rec['index']} ({rec['method']}, no options given) of a configuration derived from the one "
+                                               f"an earlier run used: max |sample| {np.abs(h).max()}"})
     return {
         "violations": _dedupe(viol),
         "nontrivial": checked > 0,
